@@ -19,13 +19,13 @@ def C13():
              timeout=300, mem_gb=4),
         Kani("c13_h13a_twin", "vacuity twin of H13a (assert!(false) after the call must be reachable)", expect="fail", fail_desc="twin reached", timeout=300, mem_gb=4),
     ]
-    for n in (1, 2, 3, 5, 8):
-        jobs.append(Kani("c13_link_read_%d" % n,
+    for n in (1, 2, 3, 5, 8, 12):
+        jobs.append(Kani("c13_link_read_%s" % ("n12" if n == 12 else n),
                          "Link::read(%d) under every fragmentation schedule returns exactly the next %d bytes and consumes exactly %d" % (n, n, n),
                          tiers=("quick", "thorough") if n in (1, 3, 8) else ("thorough",),
                          bounds={"request": n, "stream_bytes": n + 2, "schedule": "every read delivers a solver-chosen 1..=min(buf,remaining)", "unwind": 12},
                          symbolic=["data: [u8;%d]" % (n + 2), "chunk size per read"], functions=["model::link::Link::read", "model::link::Stream::read_exact", "std::io::default_read_exact"],
-                         timeout=300, mem_gb=4))
+                         timeout=900 if n == 12 else 300, mem_gb=10 if n == 12 else 4))
     jobs.append(Kani("c13_link_read_truncated", "Link::read(6) on a stream of 0..5 bytes under every schedule is an error",
                      bounds={"request": 6, "stream_bytes": "0..5 symbolic", "unwind": 12}, symbolic=["data", "have", "chunks"],
                      functions=["model::link::Link::read"], timeout=300, mem_gb=4))
@@ -59,8 +59,8 @@ def C14():
              bounds={"size": "all u16 <= 65531 (precondition established by the E3 query on tpkt::Client::write)", "unwind": 12},
              symbolic=["size: u16"], functions=["core::tpkt::tpkt_header", "model::data::Component::write", "model::data::U16::write"], timeout=300, mem_gb=4),
     ]
-    for n in (1, 2, 4, 8):
-        jobs.append(Kani("c14_h14b_short_write_%d" % n,
+    for n in (1, 2, 4, 8, 12):
+        jobs.append(Kani("c14_h14b_short_write_%s" % ("n12" if n == 12 else n),
                          "Link::write of a %d-byte Vec<u8> message through a stream that accepts a solver-chosen non-empty prefix per write: Ok => all %d bytes delivered in order" % (n, n),
                          tiers=("quick", "thorough") if n in (2, 8) else ("thorough",),
                          bounds={"payload": n, "schedule": "each write accepts 1..=len (symbolic)", "unwind": 12}, symbolic=["data", "accepted prefix per write"],
@@ -91,7 +91,7 @@ def C14():
 def C19():
     jobs = [Kani("c19_blit_twin", "vacuity twin", expect="fail", fail_desc="twin reached", ptr_checks=True, timeout=300, mem_gb=6)]
     for name, w, h, d, q in (("1x1_d4", 1, 1, 4, True), ("2x2_d0", 2, 2, 0, True), ("2x2_d16", 2, 2, 16, True), ("3x2_d24", 3, 2, 24, False),
-                             ("3x3_d36", 3, 3, 36, False), ("2x3_d8", 2, 3, 8, True)):
+                             ("3x3_d36", 3, 3, 36, False), ("2x3_d8", 2, 3, 8, True), ("4x2_d32", 4, 2, 32, False)):
         jobs.append(Kani("c19_blit_" + name,
                          "fast_bitmap_transfer into a %dx%d window (symbolic contents) from a raw 32 bpp image of %d symbolic bytes, all rectangle coordinates and image width/height arbitrary u16: no panic, no out-of-bounds or misaligned access; Ok and rectangle inside the window => exactly the rectangle's rows copied, everything else unchanged" % (w, h, d),
                          tiers=("quick", "thorough") if q else ("thorough",), ptr_checks=True,
